@@ -35,6 +35,19 @@ class ScriptedClock:
         return getattr(_time, name)
 
 
+def _assignments_agree(sol):
+    """Both views of one solution object tell the same assignment: a task lists a resource iff that resource
+    lists an assignment for the task, and lists it once."""
+    for name, ts in sol.tasks.items():
+        listed = list(ts.assigned_resources)
+        if len(set(listed)) != len(listed):
+            return False
+        from_resources = {rn for rn, rs in sol.resources.items() if any(a[0] == name for a in rs.assignments)}
+        if set(listed) != from_resources:
+            return False
+    return True
+
+
 def run(p, index, calls, solver_kw=None, tracked=(), clock_step=None, want_solutions=True):
     """calls: list of ("solve",) | ("another",) | ("another_var", i) | ("initialize",) | ("export",)
     index: {(schedule key, objective tuple): point id} from scenarios.from_problem.
@@ -46,7 +59,7 @@ def run(p, index, calls, solver_kw=None, tracked=(), clock_step=None, want_solut
         if b.inds[i] is not None:
             ind["solname"] = b.inds[i].name
     s = B.make_solver(b, **solver_kw)
-    events, solutions = [], []
+    events, solutions, kept = [], [], []
     obj_targets = [o._target for o in b.objs]
 
     def point_of(m):
@@ -112,12 +125,18 @@ def run(p, index, calls, solver_kw=None, tracked=(), clock_step=None, want_solut
                 same = all((not mv["sched"][i] and not sv["sched"][i])
                            or (mv["sched"][i] == sv["sched"][i] and mv["s"][i] == sv["s"][i] and mv["e"][i] == sv["e"][i])
                            for i in range(len(mv["sched"])))
-                if not same:
+                if not same or not _assignments_agree(res):
                     w = -2
+                kept.append((len(events), res, res.to_json(compact=True)))
                 if want_solutions:
                     solutions.append({"call": len(events), "sv": sv, "trace": PJ.to_trace(p, 0, sv, res),
                                       "json": json.loads(res.to_json(compact=True))})
             events.append({"e": "ret", "w": w if not raised else -1, "raised": raised})
+        # a solution that has been handed out is a value: later calls on the solver must not change it
+        for idx, obj, snapshot in kept:
+            if obj.to_json(compact=True) != snapshot and idx < len(events) and events[idx]["e"] == "ret":
+                events[idx]["w"] = -2
+                events[idx]["changed_by_a_later_call"] = True
     finally:
         pss.time = old_time
         os.dup2(saved_err, 2)
